@@ -76,9 +76,19 @@ def analyse(facts, tier):
                     hits.append('%s in %s' % (s['callee'], ir.fns[i]['dname'].split('(')[0][-50:]))
         obls.append(Obl('C16.R1', f['dname'].split('(')[0], 'no allocation reachable', '%s:%s' % (f.get('file', '?'), f.get('line', 0)), 'finding' if hits else 'discharged',
                         why='allocation reachable: %s' % hits[:3] if hits else '%d functions reachable, none allocates' % len(par), detail={'reachable': len(par)}))
-    gb = facts.fn('opn2_getBank')
+    gb_api = facts.fn('opn2_getBank')
     E = facts.enums
     crt = E.get('OPNMIDI_Bank_CreateRt')
+    # the creation code: in opn2_getBank itself, or in a local helper it calls (the function that holds the insert() calls); the
+    # rules about creation read that function, and the API function must hand the helper's failure on
+    gb = gb_api
+    helper_call = None
+    if not any(short(callee_name(x)) == 'insert' for x in calls_in(gb_api.tree)):
+        for x in calls_in(gb_api.tree):
+            for cf in facts.fns.get(callee_name(x), [])[:1]:
+                if is_local_helper(gb_api, cf) and any(short(callee_name(y)) == 'insert' for y in calls_in(cf.tree)):
+                    gb, helper_call = cf, callee_name(x)
+    fail_consts = (-1,) if helper_call is None else (0, -1)
     for b, j, st in gb.cfg.stmts():
         for x in calls_in(st['s']):
             if short(callee_name(x)) == 'insert':
@@ -119,7 +129,11 @@ def analyse(facts, tier):
                     if v3['n'] in names and v3.get('init') is not None and 'insert(' in show(v3['init']):
                         return True
         return False
-    okf = any(const_of(st['s'].get('e')) == -1 and any(_insert_result_is_end(f) for f in guard_facts(gb, b, st)) for b, j, st in gb.cfg.returns())
+    okf = any(const_of(st['s'].get('e')) in fail_consts and any(_insert_result_is_end(f) for f in guard_facts(gb, b, st)) for b, j, st in gb.cfg.returns())
+    if helper_call is not None:
+        # .. and the API function returns -1 when the helper reports the failure
+        okf = okf and any(const_of(st['s'].get('e')) == -1 and any(f[0] == 'truth' and not f[2] and callee_name(strip(f[1])) == helper_call for f in guard_facts(gb_api, b, st))
+                          for b, j, st in gb_api.cfg.returns())
     obls.append(Obl('C16.R2', gb.name, 'exhausted capacity is reported', gb.loc, 'discharged' if okf else 'finding', why='insert result == map.end() -> return -1' if okf else 'a failed real-time creation is not reported'))
     # creation keeps an existing bank: the entry is obtained through insert(), which returns the existing slot; an assignment through
     # operator[] would write the blank template over a bank that already exists
